@@ -223,8 +223,7 @@ class BridgeOverMux:
                 "regs": regs, "overlaps": r.choice(csrmux.OVERLAPS), "seed": r.getrandbits(30)}
 
     def build(self, cfg):
-        mm, regs = csrmux.build_map(cfg)
-        mux = csr.Multiplexer(mm, shadow_overlaps=cfg["overlaps"])
+        mux, mm, regs = csrmux.build_mux(cfg, cfg["overlaps"])
         br = WishboneCSRBridge(mux.bus, data_width=cfg["n"] * cfg["cdw"])
         m = Module()
         m.submodules.mux = mux
